@@ -354,10 +354,12 @@ where
                 AlnWriter::new(&self.seq, self.k, &self.repeat_coors, self.ambig_mask);
                 self.mapped_names.len()
             ];
+        // The global pool has already been set up if the samples were built
+        // from sequence files with more than one thread
         rayon::ThreadPoolBuilder::new()
             .num_threads(threads)
             .build_global()
-            .unwrap();
+            .unwrap_or_else(|_| log::debug!("Global thread pool already initialised"));
         seq_writers
             .par_iter_mut()
             .enumerate()
